@@ -230,6 +230,29 @@ def self_case(ra):
     return ops
 
 
+# ---- inclusion state machine: every sequence of per-word relations ----
+REL_WORDS = {"ee": (0, 0), "a": (6, 0), "b": (0, 6), "eq": (6, 6), "sub": (2, 6), "sup": (6, 2), "ov": (6, 12), "dis": (3, 12)}
+
+
+def relation_matrix(nwords):
+    """cases: two bitmaps whose word i are in relation rel_i, with every combination of infinite tails"""
+    import itertools
+    cases = []
+    for rels in itertools.product(sorted(REL_WORDS), repeat=nwords):
+        for inf1 in (0, 1):
+            for inf2 in (0, 1):
+                a = " ".join("%x" % REL_WORDS[r][0] for r in rels)
+                b = " ".join("%x" % REL_WORDS[r][1] for r in rels)
+                ops = ["fromuls 0 %d %s" % (nwords, a), "fromuls 1 %d %s" % (nwords, b)]
+                if inf1:
+                    ops.append("setr 0 %d -1" % (64 * nwords + (64 if inf2 else 0)))
+                if inf2:
+                    ops.append("setr 1 %d -1" % (64 * nwords))
+                ops += ["cmpi 0 1", "cmpi 1 0", "isincl 0 1", "isincl 1 0", "inter 0 1", "isequal 0 1", "cmp 0 1", "cmpf 0 1"]
+                cases.append(ops)
+    return cases
+
+
 # ---- leaf functions sweep ----
 def leaf_words(rng, nrandom):
     ws = [0, FULLW]
